@@ -50,6 +50,21 @@ def dispatch_cases(rng, n_extra):
             continue
         for p in rng.sample(payloads, 3 if base not in (1, 0x20) else len(payloads)):
             out.append({"mode": "dispatch", "ty": ty, "payload": p.hex()})
+    # a valid JSON value followed by trailing bytes (stream decoders behave differently from Unmarshal on these)
+    trailing = [b'{"client_id":7}x', b'{"client_id":7}{"cap', b'{} {}', b'{}}', b'[]x', b'null null', b'1 2', b'{"tunnel_id":"t"}\x00', b'{}\n\n{', b'"a"b']
+    for ty in (0x01, 0x20, 0x41, 0x60):
+        for pl in trailing:
+            out.append({"mode": "dispatch", "ty": ty, "payload": pl.hex()})
+    for pl in trailing:
+        out.append({"mode": "dispatch", "ty": 0x10, "payload": "",
+                    "cmd": {"CommandType": rng.choice([13, 72, 120, 121, 90, 110]), "CommandId": "c", "Token": "", "SenderId": "", "ReceiverId": "", "CommandBody": pl.decode("latin1")}})
+    # two-step sequences on ONE connection: a handshake (refused or not), then every command type
+    hs = [{"ty": 0x01, "payload": b'{"client_id":0,"protocol":"tcp"}'.hex()}, {"ty": 0x01, "payload": b'{"client_id":12345678,"token":"x"}'.hex()}]
+    for ct in range(256):
+        out.append({"mode": "dispatch", "ty": 0x10, "payload": "", "pre": [hs[ct % 2]],
+                    "cmd": {"CommandType": ct, "CommandId": "p", "Token": "", "SenderId": "", "ReceiverId": "", "CommandBody": "{}"}})
+    for ty in (0x03, 0x20, 0x01):   # (not 0x11 with a bare payload: a command-type packet with a nil CommandPacket is never decoded by ReadPacket)
+        out.append({"mode": "dispatch", "ty": ty, "payload": b"{}".hex(), "pre": hs})
     for _ in range(n_extra):
         ty = rng.choice([1, 0x20, 0x10, 3, 0x41, 0x60])
         body = json.dumps(rand_json(rng)).encode()
@@ -101,6 +116,17 @@ def stream_cases(ctx, n_seq, per):
             third = bytes([0x10]) + len(inner).to_bytes(4, "big") + inner
             raw.append({"mode": "raw", "wire": (first + second + third + first + second).hex(), "cuts": rng.choice([[], [1000] * 80, [7] * 20]),
                         "big": n2 > 3900})   # (bodies above 4096 are not echoed by the harness: Go-side predicate only, not pushed through the model)
+    # command-carrying frames with 0-3 byte bodies: every one-byte body, and two/three-byte bodies around multi-byte markers
+    # (BOM EF BB BF, UTF-8 lead bytes, JSON punctuation), plain and as the inflated content of a compressed frame
+    tiny = [bytes([b]) for b in range(256)] + [bytes([0xEF, x]) for x in (0x00, 0xBB, 0xBF, 0xFF)] + [bytes([0xEF, 0xBB, x]) for x in (0x00, 0xBF, 0xFF)] \
+        + [b"", b"{", b"{}", b'"', b'""', b"[", b"0", b"-", b"\xc3", b"\xe2\x82", b"\xf0\x9f\x98"]
+    tail = bytes([0x20, 0, 0, 0, 1, 0x41])
+    for ty in (0x10, 0x11):
+        for b in tiny:
+            raw.append({"mode": "raw", "wire": (bytes([ty]) + len(b).to_bytes(4, "big") + b + tail).hex(), "cuts": []})
+    for b in tiny[::5] + tiny[256:]:
+        z = _gz.compress(b, mtime=0)
+        raw.append({"mode": "raw", "wire": (bytes([rng.choice([0x50, 0x51])]) + len(z).to_bytes(4, "big") + z + tail).hex(), "cuts": rng.choice([[], [1] * 60])})
     for c in raw:
         c["mode"] = "stream"
     return raw
